@@ -141,6 +141,83 @@ def encode(inst):
     return json.loads(json.dumps(inst, cls=JSONEncoder))
 
 
+def structure_universe(ck):
+    """MC_SchemaGenM: the generator's structural output as transcribed against the lookup loops as transcribed (DataLoops), over the
+    case-sensitive declarations x options of the DataLoops universe; every declaration is then built for real: the real generator's
+    document is compared with the model (DIV) and with the probed behaviour of the real parser (VIOL)"""
+    import os
+    import shutil
+    from utype import JsonSchemaGenerator
+    from . import c05
+    mc = tlc.run("MC_SchemaGenM", "MC_SchemaGenM.cfg")
+    ck.mc(mc, "MC generator vs loops")
+    if mc.invariant_violated:
+        ck.count("model_only_counterexamples")
+        ck.note("model-level counterexample: generator and lookup loops as transcribed disagree on %s" % mc.invariant_violated)
+    wit = tlc.run("MC_SchemaGenM", "MC_SchemaGenM_witness.cfg", workers=1, extra=("-continue",))
+    missing = [w for w in ("W_NoInputField", "W_RequiredField", "W_Rejected", "W_Converted") if "Invariant %s is violated" % w not in wit.output]
+    if missing:
+        raise MachineryError("vacuity: %s unreachable in MC_SchemaGenM" % missing)
+    d = tlc.scratch("sg-")
+    try:
+        out = os.path.join(d, "cases.ndjson")
+        tlc.run("Export_SchemaGenM", "Export_SchemaGenM.cfg", env={"OUT_CASES": out}, workers=1)
+        cases = [json.loads(l) for l in open(out) if l.strip()]
+    finally:
+        shutil.rmtree(d, ignore_errors=True)
+    if len(cases) != mc.distinct:
+        raise MachineryError("exported universe (%d) is not the one TLC explored (%d)" % (len(cases), mc.distinct))
+    recs = []
+    for i, c in enumerate(cases):
+        decl, o = c["d"], c["o"]
+        try:
+            T, okw = c05.build(decl, o, False)
+            doc = inline_refs(JsonSchemaGenerator(T, output=False)())
+        except Exception as e:
+            raise MachineryError("universe declaration %s %s refused: %s" % (c["sh"], c["st"], e))
+        ap = doc.get("additionalProperties", "absent")
+        addl = "absent" if ap == "absent" else "true" if ap is True else "false" if ap is False else "schema"
+        fields = decl["fields"]
+        accepted, preq, probed = [], [], True
+        for f in fields:
+            others = [(g["out"], 2) for g in fields if g is not f]
+            r = c05.observe(T, decl, others + [(f["out"], 3)])
+            if not r["ok"]:
+                probed = False          # the probe itself is rejected (e.g. a dependency that can never be given): inconclusive
+            elif any(e["k"] == f["att"] and e["v"] == c05.val(3) for e in r["attrs"]):
+                accepted.append(f["out"])
+            r2 = c05.observe(T, decl, others, okw, collect=True)
+            r2f = c05.observe(T, decl, others)
+            if not r2f["ok"] and "absence" in (r2["allkinds"] or r2f["allkinds"]):
+                # the absence must be about this field: the others are all given
+                preq.append(f["out"])
+        r3 = c05.observe(T, decl, [(g["out"], 2) for g in fields] + [("zz", "7")])
+        r3c = c05.observe(T, decl, [(g["out"], 2) for g in fields] + [("zz", "7")], okw, collect=True)
+        if not r3["ok"]:
+            fate = "rejected" if "exceed" in (r3c["allkinds"] or r3["allkinds"]) else "unknown"
+        else:
+            got = [e["v"] for e in r3["data"] if e["k"] == "zz"]
+            fate = "dropped" if not got else "converted" if got[0] == c05.val(7) else "kept"
+        recs.append({"id": "g%d" % i, "d": decl, "o": o, "props": sorted(doc.get("properties", {})), "required": sorted(doc.get("required", [])), "addl": addl,
+                     "accepted": accepted, "preq": preq, "fate": fate, "probed": probed, "tag": "+".join(c["sh"]) + "|" + ",".join(c["st"])})
+    res = tlc.judge("Trace_SchemaGenM", "Trace_SchemaGenM.cfg", [{k: v for k, v in r.items() if k != "tag"} for r in recs], workers=4)
+    ck.mc(res, "Trace generator structure")
+    if res.distinct != len(recs):
+        raise MachineryError("trace acceptance (generator universe): TLC visited %d states, expected %d" % (res.distinct, len(recs)))
+    ck.judged(len(recs))
+    ck.count("universe_declarations_generated_and_probed", len(recs))
+    byid = {r["id"]: r for r in recs}
+    for t in res.tagged("VIOL"):
+        r = byid[t[1]]
+        ck.violation("C13|%s|universe|%s" % (t[2], r["tag"]), t[2], r)
+    dv = res.tagged("DIV")
+    if dv:
+        ck.count("divergences", len(dv))
+        for t in dv[:5]:
+            r = byid[t[1]]
+            ck.note("divergence: the generator as transcribed (SchemaGenM) writes another structure for %s: real props=%s required=%s addl=%s" % (r["tag"], r["props"], r["required"], r["addl"]))
+
+
 def main():
     ck = Check("C13")
     thorough = ck.tier == "thorough"
@@ -228,6 +305,7 @@ def main():
             records.append({"id": "c13-%d" % n, "unsafe_decimal": unsafe, "kind": "out", "view": "output", "doc": jv(doc_out), "accepted": [], "required": [], "fate": "unknown", "probed": False,
                             "v": jv(js), "pm": regex_facts(doc_out, js), "tag": tag, "src": decl["src"], "json": json.dumps(js)[:200]})
     ck.count("input_documents_with_all_probes_concluded", sum(1 for r in records if r["kind"] == "doc" and r["probed"]))
+    structure_universe(ck)
     byid = {r["id"]: r for r in records}
     res = tlc.judge("Trace_SchemaGen", "Trace_SchemaGen.cfg", [{k: v for k, v in r.items() if k not in ("src", "json", "unsafe_decimal")} for r in records], workers=16)
     ck.mc(res, "Trace")
